@@ -23,22 +23,43 @@ TIE = {'convert.py converters, vote.py subsetters': 'correspondence',
        'component/rankscore.py Dowdall / Geometric / ModifiedBorda / FixedTop': 'translator (per-rank score expressions regenerated into Gen/Rankscore.v on '
                                                                                    'every run, Props/GenTie_Rankscore.v proves them equal to Model/Convert.v rank_scores) + correspondence',
        'component/rankscore.py Borda (stateful) / SequenceBased (slicing)': 'correspondence',
-       'convert.py RoundedVotes (alone and behind Chain)': 'declarative oracle in the harness (exact rational rounding, no Coq unit)'}
+       'convert.py VoteTotals / MergedDistributions / ConstituencyTotals / PartyTotals / InvertedSimpleVotes / GroupVotesByParty / '
+       'IndividualToPartyResult / SelectionToDistribution / MergedSelections / ByConstituency / Chain (Model/Convert2.v, unit 210)': 'correspondence',
+       'convert.py RoundedVotes (alone, behind Chain, inside ByConstituency)': 'correspondence with Model/Convert2.v round_q (exact rounding) inside the 28 digit '
+                                                                              'domain and with round_code (28 digit quotient first, InvalidOperation) everywhere, '
+                                                                              '+ independent exact-rational oracle in the harness'}
 RULE = ('corpus; ranked profiles over 2..5 candidates (shared ranks 25 %, truncation, empty ballots, duplicate images by construction), '
         'approval and score profiles (grades 0..5, partial ballots); every modelled converter (15 kinds x configurations, six rank scorers) '
         'compared with the model; additivity stream: each profile split into two sub-profiles (all splits for <=4 ballots, 6 random '
-        'otherwise) and conv(A+B) == conv(A)+conv(B) evaluated on the implementation (same candidate set for profile-dependent images); '
-        'impl-only additivity for VoteTotals/ConstituencyTotals/GroupVotesByParty/InvertedSimpleVotes/Chain. rounded stream: RoundedVotes '
+        'otherwise) and conv(A+B) == conv(A)+conv(B) evaluated on the implementation (same candidate set for profile-dependent images). '
+        'totals stream (unit 210): nested profiles of 1..4 constituencies (simple / ranked / approval / score ballots, empty constituencies, zero '
+        'and rational counts, counts of 10^20) through VoteTotals, MergedDistributions (dictionary or list), ConstituencyTotals, PartyTotals, '
+        'ByConstituency(inner converter), and Chains of them with InvertedSimpleVotes / RoundedVotes; person candidates with parties through '
+        'GroupVotesByParty (independents aggregated or ignored), IndividualToPartyVotes, PartyTotals after grouping; selections through '
+        'IndividualToPartyResult, SelectionToDistribution, MergedSelections (dictionary or list), ByConstituency(SelectionToDistribution) + '
+        'MergedDistributions; model = implementation key by key (zero-count keys included), the documented image recomputed independently, '
+        'additivity over every sampled split of the constituencies / ballots, total weight. chain stream: type-correct Chains of 1..4 links '
+        '(nested Chains too) over ranked / approval / score / simple profiles from the 11 chainable accumulating converters, InvertedSimpleVotes '
+        'and RoundedVotes (last, or followed by inversion / rounding only); blank approval ballots in 10 % of the approval profiles; additivity over '
+        'splits for Chains of additive links. rounded stream: RoundedVotes '
         '(and Chain[ApprovalToSimpleVotes(split), RoundedVotes]) on simple / ranked / approval / score ballots, 0..6 decimals, default + the '
         'eight decimal rounding modes, counts as int / Fraction / Decimal / binary-exact float placed exactly on a half of the kept digit '
         '(even and odd digit before, up to 10^20), just beside it, on the grid, just above the grid, non-terminating fractions, a few '
-        'negative counts; every count compared with exact rational rounding computed in the harness, keys and ballot count unchanged; '
-        'negative decimals refused with ValueError. non-trivial = shared rank or two ballots with the same image or a truncated ballot '
-        '(rounded: a count that is not already on the grid); distinct by case hash')
-PARTIAL = ['RoundedVotes is not additive by nature: only its per-ballot image is decided (harness oracle exact_round, no Coq unit); counts whose '
-           'exact decimal expansion needs more than the 28 significant digits of the default decimal context (the library divides '
-           'numerator by denominator once at that precision) are outside the explored domain',
-           'MergedSelections/Distributions, ByConstituency wrapper: not exercised']
+        'negative counts; every count compared with the model (exact rounding round_q or the code path round_code, drawn per case) and with exact '
+        'rational rounding computed in the harness, keys and ballot count unchanged; negative decimals refused with ValueError. rounded-wide stream: '
+        'counts outside the exact domain of the 28 digit decimal context (Fractions within 10^-27..10^-40 of a half or of the grid, non-terminating '
+        'fractions with denominators up to 3*10^27, Decimals of 29..40 digits, results of more than 28 digits) against round_code only. '
+        'non-trivial = shared rank or two ballots with the same image or a truncated ballot '
+        '(rounded: a count that is not already on the grid; totals: more than one constituency; chain: more than one ballot or link); distinct by case hash')
+PARTIAL = ['RoundedVotes is not additive by nature (C13_rounded_additive_refuted, C13_chain_rounded_refuted): its per-ballot image is decided. The exact '
+           'image round_q holds of the code for counts the library\'s single 28 digit division represents exactly (sig_round 28 x == x: every count '
+           'with at most 28 significant digits; C13_rounded_code_exact) and whose result fits 28 digits; outside, the library rounds twice '
+           '(C13_rounded_double_rounding_refuted: Fraction 1/2 + 10^-30, ROUND_HALF_DOWN, 0 decimals -> 0) or raises InvalidOperation - behaviour '
+           'reproduced by Model/Convert2.v round_code and compared on the rounded-wide stream, not a clause of the property',
+           'A Decimal count (the output of RoundedVotes) cannot be combined with Fraction counts by later converters (TypeError in Fraction * Decimal): '
+           'Chains with RoundedVotes before an accumulating converter are outside the explored domain',
+           'ByConstituency deeper than one level, SubsettedVotes(depth > 0), IndividualToPartyMapper(independents=keep / error): not exercised; '
+           'MergedSelections is modelled and compared, no theorem (it merges rankings, not votes)']
 TRUSTED = []
 KINDS = {'approval_simple': 1, 'first_pref': 2, 'first_n': 3, 'presence': 4, 'ranked_approval': 5, 'positional': 6,
          'condorcet': 7, 'score_ranked': 8, 'score_approval': 9, 'inverted_approval': 10, 'party': 11,
@@ -265,7 +286,8 @@ def spec(c, io, mo):
 
 
 def known_class(c, io, mo):
-    if c.get('unit') == 'code' and canon2(c, io) == canon2(c, mo):      # still the recorded behaviour (the model reproduces it)
+    # still the recorded behaviour: the model reproduces it (or the chain leaves the modelled fragment before it gets there)
+    if c.get('unit') == 'code' and canon2(c, mo) in (canon2(c, io), ('unmodelled',)):
         return {'split-empty': 'C13-approval-split-empty'}.get(c.get('_class'))
     return None
 
